@@ -43,3 +43,116 @@ package netpoll
 //@   ensures nl == nil ==> err != nil && forall x int :: fdopen[x] == old(fdopen[x])
 //@   ensures typeis(nl, *listener) && !typeis(l, *listener) ==> lnok(as(nl, *listener)) && as(nl, *listener).file != nil
 //@   modifies fdopen, closecnt
+
+// ---- the server (netpoll_server.go): C13 ----
+// the server's configuration is fixed by newServer; its own slot is bound to a poller once, by Run
+//@ owned C13 : server.ln server.opts server.onQuit by newServer
+//@ worldrely forall sv *server {sv.operator.poll#tag} :: sv.operator.poll == old(sv.operator.poll)
+// ghost: what onAccept has done for the connection it is setting up
+//@ ghost global acUntrack bool
+//@ ghost global acStored bool
+//@ ghost global acConnect bool
+
+//@ func (*connection).init
+//@   trusted body not verified (buffers, descriptor, poller slot, finalizer, OnPrepare, registration); assumed to establish the connection invariant on a new object
+//@   ensures cinv(c) && !c.heldC && !c.heldP && !c.sealed_heldP && c.state == 0
+//@   modifies world
+
+// onAccept: an accepted connection that survived init is given the untrack callback first, then stored, then handed to OnConnect/OnRequest;
+// one that did not survive is neither stored nor started
+//@ func (*server).onAccept
+//@   property C13
+//@   requires s != nil && conn != nil
+//@   threadlocal !acUntrack && !acStored && !acConnect
+//@   ensures acStored ==> acUntrack
+//@   ensures acConnect ==> acStored
+//@   modifies world, acUntrack, acStored, acConnect
+//@   ghost before call (*connection).AddCloseCallback#1: acUntrack = true
+//@   ghost before call (*sync.Map).Store#1: assert acUntrack; acStored = true
+//@   ghost before call (*connection).onConnect#1: assert acStored; acConnect = true
+
+// the per-entry callback of Shutdown: an idle (or non-graceful) connection is closed, a busy one is counted and left alone; iteration never stops early
+//@ ghost global shClosed int
+//@ func (*server).Close$1
+//@   property C13
+//@   note the map holds only what onAccept stored: *connection values
+//@   requires typeis(value, *connection) && cinv(as(value, *connection)) && !as(value, *connection).heldP && !as(value, *connection).sealed_heldP
+//@   requires activeConn >= 0
+//@   ensures result
+//@   ensures (activeConn == old(activeConn) && shClosed == old(shClosed) + 1) || (activeConn == old(activeConn) + 1 && shClosed == old(shClosed))
+//@   modifies world, key:cell:int, shClosed
+//@   ghost before call invoke.Close#1: shClosed = shClosed + 1
+
+// Shutdown: stops accepting first (detach the listener's slot, close the listener), then polls; nil only right after a sweep that counted no busy
+// connection, the context's error only after the context is done
+//@ ghost global shDetached bool
+//@ ghost global shLnClosed bool
+//@ ghost global shSwept bool
+//@ func (*server).Close
+//@   property C13
+//@   requires s != nil && s.ln != nil && ctx != nil && s.operator.poll != nil && s.operator.detached >= 0 && s.operator.detached < 2147483000
+//@   threadlocal !shDetached && !shLnClosed && !shSwept
+//@   ensures shDetached && shLnClosed && shSwept
+//@   modifies world, shDetached, shLnClosed, shSwept, key:cell:int
+//@   ghost before call (*FDOperator).Control#1: shDetached = true
+//@   ghost before call invoke.Close#1: assert shDetached; shLnClosed = true
+//@   ghost before call (*sync.Map).Range#1: assert shLnClosed; shSwept = true
+//@   loop 1 invariant shDetached && shLnClosed
+
+// what a Listener gives the server: netpoll's own listener returns *netFD (or nil, nil for EAGAIN); a user-supplied Listener must return a netpoll Conn too
+//@ iface Listener.Accept
+//@   results conn err
+//@   ensures conn == nil || typeis(conn, *netFD)
+//@   modifies world
+
+// OnRead of the listener's slot: accept one connection; on descriptor exhaustion detach the listener (level-triggered epoll would spin) and
+// hand over to the retry goroutine; on a closed listener detach and report quit
+//@ ghost global orDetach bool
+//@ ghost global orRetry bool
+//@ ghost global orQuit bool
+//@ func (*server).OnRead
+//@   property C13
+//@   requires s != nil && s.ln != nil && s.operator.poll != nil && s.operator.detached >= 0 && s.operator.detached < 2147483000 && s.onQuit != nil
+//@   threadlocal !orDetach && !orRetry && !orQuit
+//@   ensures orRetry ==> orDetach
+//@   ensures orQuit ==> orDetach && result != nil
+//@   modifies world, orDetach, orRetry, orQuit, acUntrack, acStored, acConnect
+//@   ghost before call (*FDOperator).Control#1: orDetach = true
+//@   ghost before call dyn#1: assert orDetach; orRetry = true
+//@   ghost before call (*FDOperator).Control#2: orDetach = true
+//@   ghost before call dyn.onQuit#1: assert orDetach; orQuit = true
+
+// the retry goroutine: the only way out is through re-registering the listener
+//@ ghost global orReReg bool
+//@ func (*server).OnRead$1
+//@   property C13
+//@   requires s != nil && s.ln != nil && s.operator.poll != nil && s.operator.detached >= 0 && s.operator.detached < 2147483640
+//@   threadlocal !orReReg
+//@   ensures orReReg
+//@   modifies world, orReReg, acUntrack, acStored, acConnect
+//@   loop 1 invariant 0 <= retryTimeIndex && retryTimeIndex < 7 && !orReReg && s.ln != nil && s.operator.poll != nil && s.operator.detached >= 0 && s.operator.detached < 2147483640
+//@   ghost before call (*FDOperator).Control#1: assert arg1 == 1; orReReg = true
+
+// ---- dialing (net_dialer.go, net_sock.go, net_netfd.go, net_polldesc.go): C14 ----
+// the deadline error is created once at package initialisation and never reassigned
+//@ owned C14 : global:errIOTimeout by init
+//@ func mapErr
+//@   property C14
+//@   assume typeis(errIOTimeout, *timeoutError) && context.Canceled != context.DeadlineExceeded
+//@   ensures err == context.DeadlineExceeded ==> typeis(result, *timeoutError)
+//@   ensures err != context.DeadlineExceeded && err != context.Canceled ==> result == err
+
+// a dial returns a usable connection or an error, never both and never neither
+//@ func (*dialer).dialTCP
+//@   trusted body not verified (resolver calls, composite literals of struct arrays); its result pair comes from DialTCP or is (nil, error)
+//@   ensures (err == nil) == (connection != nil)
+//@   modifies world
+//@ func DialUnix
+//@   trusted body not verified; result pair is (connection, nil) or (nil, error)
+//@   results connection err
+//@   ensures (err == nil) == (connection != nil)
+//@   modifies world
+//@ func (*dialer).DialConnection
+//@   property C14
+//@   ensures (err == nil) == (connection != nil)
+//@   modifies world
